@@ -60,6 +60,13 @@ def key_term(kty, k: SV):
 
 def contains(st: St, c: SV, x: SV):
     """x in c  as a z3 Bool."""
+    if isinstance(c, SOpaqueObj):
+        # membership in an unmodelled container: an uninterpreted predicate of its identity and the element
+        if isinstance(x, SPrim):
+            return S.obj_fn("member", S.Obj, x.t.sort(), z3.BoolSort())(c.ident(), x.t)
+        if isinstance(x, SOpaqueObj):
+            return S.obj_fn("member", S.Obj, S.Obj, z3.BoolSort())(c.ident(), x.ident())
+        return S.fresh("member", z3.BoolSort())
     if isinstance(c, SDictView):
         cell = st.cell(c.ref)
         if c.kind == "keys":
